@@ -54,6 +54,7 @@ type LetSpec struct {
 }
 
 type PredSpec struct {
+	Pkg    string
 	Name   string
 	Params []QVar
 	Body   Expr
@@ -340,7 +341,7 @@ func (db *SpecDB) LoadFile(path string, pkg string) error {
 			if err != nil {
 				return fail("%v", err)
 			}
-			db.Preds[name] = &PredSpec{Name: name, Params: params, Body: e, Src: body}
+			db.Preds[name] = &PredSpec{Pkg: pkg, Name: name, Params: params, Body: e, Src: body}
 			cur = nil
 		case "specfn":
 			// specfn name(a T, b U) R
